@@ -8,8 +8,8 @@ ENG_NOTE = 'Trusted: Coq kernel; T1 translator (harness/cmd/xlate, go/ast) repor
 ENG_TECH = 'Coq proof over an IR regenerated from engine/gengine.go by a go/ast translator (per-run obligation gen = hand, then hand_sound: run_prog = spec for every configuration; traces quantify over all interleavings) + trace/err/result correspondence under a gate adversary evaluated inside Coq'
 POOL_NOTE = 'Trusted: Coq kernel; T3 translator (harness/cmd/xlate pool.go, go/ast) reporting the statement shapes of engine/gengine_pool.go; sync.Mutex / the go statement per the Go memory model; the pool harness (reflection snapshots, gates, globally sequenced events) and python scenario generator; liveness needs a fair scheduler (assumption). No axioms.'
 POOL_TECH = 'Coq proof (transition-system invariants by induction over all action sequences / histories) + go/ast translator obligations (wrapper and update shapes) + scenario correspondence with gate-held requests evaluated inside Coq'
-LANG_NOTE = "Trusted: Coq kernel; the hand-written interpreter model (Lang/Store.v, Sem.v) whose fidelity is established only by the correspondence run (outcome class, value, cited positions, calls with dynamic argument types, whole host store, and the listener-built tree compared node by node with the grammar's reading of the generated text); the assumed table of reflect primitives; IEEE-754 binary64 semantics of Go's float64 (the model runs on Coq primitive floats; theorems quantify over any float_ops); python float() = strconv.ParseFloat on the literals used. No axioms in the theorems (the primfo instance shows Coq's primitive-float constants in Print Assumptions of cases files only)."
-LANG_TECH = 'Coq proof over a hand-written executable model of the interpreter (operators, expression nodes, statements, data context) + model/implementation correspondence on generated rule texts evaluated by vm_compute inside Coq, including listener-tree / position comparison'
+LANG_NOTE = "Trusted: Coq kernel; the hand-written interpreter model (Lang/Store.v, Sem.v) whose fidelity is established by the correspondence run and, for its structural premises (recover points, fresh locals, statement / return protocol, conc fan-out and join, for cap), by the T4 translator harness/cmd/xlate interp.go (outcome class, value, cited positions, calls with dynamic argument types, whole host store, and the listener-built tree compared node by node with the grammar's reading of the generated text); the assumed table of reflect primitives; IEEE-754 binary64 semantics of Go's float64 (the model runs on Coq primitive floats; theorems quantify over any float_ops); python float() = strconv.ParseFloat on the literals used. No axioms in the theorems (the primfo instance shows Coq's primitive-float constants in Print Assumptions of cases files only)."
+LANG_TECH = 'Coq proof over a hand-written executable model of the interpreter (operators, expression nodes, statements, data context) + go/ast translator obligations on the interpreter structure the model encodes (T4) + model/implementation correspondence on generated rule texts evaluated by vm_compute inside Coq, including listener-tree / position comparison'
 CLAIMS = {
  "C03": {
   "text": 'Partial (relative to an assumed table of reflect primitives). Theorems (Props/C03.v, 69, closed, for every float_ops): reads of injected scalars, fields (one and two levels), map entries (missing key = zero value) and slice elements return the current value; a write to a struct field / pointer scalar stores set_conv / set_single of the value, which under the explicit guard `representable` is the value of the target kind with the same mathematical value (swrap/uwrap identities for all widths, cross-class int/uint/float), and changes nothing else (frame lemmas on the injected table, the other fields, locals, trace); container element writes change exactly that element (wanted coercion); calls convert arguments positionally to the declared parameter kinds, record exactly the received arguments and yield the first result; an injected name always shadows a local. Guard-needed theorems show the non-representable branches (negative to unsigned, string to int, 300 into int8 wraps to 44, non-finite float). Tie: 1093 rule texts (16 field paths x 5 source classes, pointer scalars of 14 kinds, maps/slices/arrays direct and by pointer, key coercion and index faults, every catalogue function x argument class, methods, three-level calls, shadowing, random programs), comparing returned values, received arguments with dynamic types and the WHOLE host store afterwards.',
